@@ -510,9 +510,38 @@ func init() {
 		return true
 	})
 	// vFsFreeze(true): from now on any mutation step is recorded as a violation counter
-	// vFsFingerprint(root): changes iff any mutation step happened (stronger than byte identity)
+	// vFsFingerprint(root): names and contents of everything under root, as the
+	// native twin computes it (a rewrite with identical content is not a change).
+	// Symbolic leaves are identified by their (hash-consed) term: two renderings
+	// are equal only if the contents are equal; different terms that happen to
+	// be equal in value would read as a change, which the native replay refutes.
 	reg(hp+"vFsFingerprint", func(i *interpreter, fr *frame, args []value) value {
-		return fmt.Sprintf("mutations=%d", len(i.env.fsm().log))
+		root := strArg(args[0])
+		f := i.env.fsm()
+		var paths []string
+		for p := range f.nodes {
+			if p == root || strings.HasPrefix(p, root+"/") {
+				paths = append(paths, p)
+			}
+		}
+		sort.Strings(paths)
+		var sb strings.Builder
+		for _, p := range paths {
+			n := f.nodes[p]
+			if n.dir {
+				sb.WriteString("D:" + p + "\n")
+				continue
+			}
+			sb.WriteString("F:" + p + ":")
+			if n.gz {
+				sb.WriteString("gz:")
+			}
+			if n.data != nil {
+				n.data.fingerprint(&sb)
+			}
+			sb.WriteString("\n")
+		}
+		return sb.String()
 	})
 	reg(hp+"vFsMutations", func(i *interpreter, fr *frame, args []value) value {
 		return len(i.env.fsm().log)
